@@ -556,6 +556,13 @@ def _mul_pairs(prog, mul, store, idxs):
         raise Und2("bound %s" % show(t)[:40])
     guards = [(strip(c), val_ != "0") for c, val_, _, _ in te.facts_at(bb)
               if strip(c)[0] == "bin" and strip(c)[1] in ("Lt", "Le", "Gt", "Ge") and "next(" in show(c) and "discr" not in show(c)]
+    # the bounds test written as a checked access: `let Some(slot) = new_coeffs.get_mut(i + j) else { continue }` holds
+    # exactly when i + j is below the array's length, MAX_COEFFS
+    for c, val_, _, _ in te.facts_at(bb):
+        c0 = strip(c)
+        if c0[0] == "discr" and mir.is_call(strip(c0[1])) and strip(c0[1])[1].name in ("get_mut", "get") and len(strip(c0[1])[2]) == 2 \
+                and val_ in ("1", ("not", ("0",))):
+            guards.append((("bin", "Lt", strip(c0[1])[2][1], ("const", "usize", str(MAXC))), True))
     self_i = "arg1" in which.get("i", "arg1")
     errs = []
     for l1 in (0, 1, 2, 3, MAXC - 1, MAXC):
